@@ -537,6 +537,14 @@ func (fc *FuncCtx) wellFormed(v *Term, t types.Type, alloc *Term) *Term {
 			impl := TTrue
 			if it, ok := t.Underlying().(*types.Interface); ok && it.NumMethods() > 0 && !strings.Contains(v.S, "!q") {
 				impl = Or(Eq(v, &Term{"a_nil", SAny}), fc.implements(v, t))
+				// Go typing: the dynamic type of a non-nil value of interface type T is assignable to T
+				// (stated for interface types of other packages, where reflect-based code needs it)
+				if n, ok := t.(*types.Named); ok && n.Obj().Pkg() != fc.u.tpkg {
+					if _, has := fc.u.specFuncs["assignableT"]; has {
+						fc.d.Fun("sf_assignableT", []Sort{SInt, SInt}, SBool)
+						impl = And(impl, Or(Eq(v, &Term{"a_nil", SAny}), App(SBool, "sf_assignableT", fc.anyTypeID(v), IntLit(int64(fc.u.typeID(t))))))
+					}
+				}
 			}
 			return And(impl,
 				Implies(is("a_ref"), And(Ge(App(SInt, "a_ref_v", v), IntLit(0)), Lt(App(SInt, "a_ref_v", v), alloc), kind("a_ref_ty", 5))),
